@@ -40,6 +40,7 @@ type C06Plan struct {
 	Nodes        []string   `json:"nodes"`
 	Links        []c06Link  `json:"links"`
 	ScriptAt     string     `json:"script_at"`
+	Twins        int        `json:"twins"` // rounds of "first two updates of an unknown origin in one instant over two neighbours"
 	Events       []c06Event `json:"events"`
 	Shrink       []string   `json:"_shrink"`
 }
@@ -103,6 +104,9 @@ func genC06(seed uint64, tier string) any {
 			ev.Kind, ev.Variant, ev.Origin = "probe", simnet.Pick(r, c06Variants), simnet.Pick(r, p.Nodes)
 		}
 		p.Events = append(p.Events, ev)
+	}
+	if r.Bool(0.5) {
+		p.Twins = r.Range(2, 8)
 	}
 	return p
 }
@@ -364,6 +368,57 @@ func runC06(t *testing.T, planAny any, res *simnet.Result) {
 		c06History(w, m, sp.Name, maxHop, len(p.Nodes), k.SeenExpire, res)
 		dumpWire(w, os.Getenv("VERIF_DEBUG"))
 		c06Final(m, sp.Name, res)
+		// ---- the first two updates of an origin nobody has heard of reach x in the same instant over two different
+		// neighbours, the older one possibly handled second; goroutines are held back at random lock sites (real
+		// time).  Whatever the interleaving, x's picture of the origin must end up being the newer update's.
+		if p.Twins > 0 && len(res.Violations) == 0 {
+			installYields(res.Seed, 0, "none")
+			stopNoise := installLockNoise(res.Seed, 0.5)
+			l2, sess2, err := m.AttachScripted(x, simnet.LinkCfg{Name: "S2", Latency: time.Millisecond + 911*time.Nanosecond, FIFO: true}, "zt", 1)
+			if err == nil {
+				sp2 := simnet.NewScriptPeer(w, "zt", x.ID, 1, l2, sess2)
+				sp2.Handshake()
+				time.Sleep(2 * time.Second)
+				lat1, lat2 := time.Millisecond+137*time.Nanosecond, time.Millisecond+911*time.Nanosecond
+				for round := 0; round < p.Twins && len(res.Violations) == 0; round++ {
+					origin := fmt.Sprintf("nw%d", round)
+					older := &simnet.RoutingUpdate{NodeID: origin, UpdateID: sp.NextID(), UpdateEpoch: 5 << 24, UpdateSequence: 1, Connections: map[string]float64{"zs": 1}}
+					newer := &simnet.RoutingUpdate{NodeID: origin, UpdateID: sp.NextID(), UpdateEpoch: 5 << 24, UpdateSequence: 2, Connections: map[string]float64{"zs": 1, "zt": 1}}
+					first, second := sp, sp2 // who carries the newer one
+					la, lb := lat1, lat2
+					if simnet.H(res.Seed, "twin", round)%2 == 0 {
+						first, second, la, lb = sp2, sp, lat2, lat1
+					}
+					at := w.Now() + 50*time.Millisecond
+					done := make(chan struct{}, 2)
+					go func() {
+						w.SleepUntil(at - la)
+						n := *newer
+						n.ForwardingNode = first.Name
+						_ = first.SendRoute(&n)
+						done <- struct{}{}
+					}()
+					go func() {
+						w.SleepUntil(at - lb)
+						o := *older
+						o.ForwardingNode = second.Name
+						_ = second.SendRoute(&o)
+						done <- struct{}{}
+					}()
+					<-done
+					<-done
+					time.Sleep(300 * time.Millisecond)
+					simnet.Quiesce()
+					got := x.Net().Status().KnownConnectionCosts[origin]
+					res.Add("probe_twin_first_updates", 1)
+					if !reflect.DeepEqual(map[string]float64(got), newer.Connections) {
+						res.Violate("c06:stale-applied|twin-first-updates", "x received sequence 2 (%v) and sequence 1 (%v) of the new origin %s in one instant over two neighbours; its picture of %s is %v", newer.Connections, older.Connections, origin, origin, got)
+					}
+				}
+				sp2.Stop()
+			}
+			stopNoise()
+		}
 		res.SimSeconds = w.Now().Seconds()
 		res.LogHash, res.LogLines = w.CanonicalLogHash()
 		res.Merge(w.Stats())
